@@ -21,6 +21,8 @@ type Exec struct {
 	Steered bool
 	FS      *FS // optional file substrate
 
+	partialsEver uint64 // partial compactions of store instances closed so far
+
 	Store *moss.Store
 	Coll  moss.Collection
 	Lower *Lower
@@ -459,10 +461,30 @@ func (e *Exec) CloseStore() error {
 	if e.Store == nil {
 		return nil
 	}
+	e.partialsEver += e.storePartials()
 	err := e.Store.Close()
 	e.Store = nil
 	return err
 }
+
+func (e *Exec) storePartials() uint64 {
+	if e.Store == nil {
+		return 0
+	}
+	var n uint64
+	Safe(func() error {
+		ss, err := e.Store.Stats()
+		if err == nil {
+			n, _ = ss["total_compactions_partial"].(uint64)
+		}
+		return nil
+	})
+	return n
+}
+
+// Partials returns the number of partial (leveled) compactions every store
+// instance of this execution has run so far, observed round or not.
+func (e *Exec) Partials() uint64 { return e.partialsEver + e.storePartials() }
 
 // CloseAll closes collection then store.
 func (e *Exec) CloseAll() error {
